@@ -10,7 +10,7 @@ use crate::ops::*;
 fn c18_cfg(tier: Tier) -> ProgCfg {
     ProgCfg {
         mix: OpMix { write: 6, extract: 12, damage_content: 4, remove: 1, remove_hash: 1, ..OpMix::NONE },
-        wmix: WriteMix { bad_decls: false, meta: false, by_hash: true },
+        wmix: WriteMix { bad_decls: false, meta: false, by_hash: true, rich_matching: false, interfere: false },
         sizes: SizeMix::Normal,
         keys: (2, 3),
         blobs: (2, 3),
